@@ -248,7 +248,9 @@ class APINoiseFrameHelper(APIFrameHelper):
         server_name_i = server_hello.find(b"\0", 1)
         if server_name_i != -1:
             # server name found, this extension was added in 2022.2
-            server_name = server_hello[1:server_name_i].decode()
+            # The server hello is not authenticated, never let a name
+            # that is not valid utf-8 escape as a UnicodeDecodeError
+            server_name = server_hello[1:server_name_i].decode(errors="replace")
             self._server_name = server_name
 
             if self._expected_name is not None and self._expected_name != server_name:
@@ -295,7 +297,7 @@ class APINoiseFrameHelper(APIFrameHelper):
 
     def _error_on_incorrect_preamble(self, msg: bytes) -> None:
         """Handle an incorrect preamble."""
-        explanation = msg[1:].decode()
+        explanation = msg[1:].decode(errors="replace")
         if explanation != "Handshake MAC failure":
             exc = HandshakeAPIError(
                 f"{self._log_name}: Handshake failure: {explanation}"
@@ -307,10 +309,27 @@ class APINoiseFrameHelper(APIFrameHelper):
         self._handle_error_and_close(exc)
 
     def _handle_handshake(self, msg: bytes) -> None:
+        if not msg:
+            self._handle_error_and_close(
+                HandshakeAPIError(f"{self._log_name}: Handshake frame is empty")
+            )
+            return
         if msg[0] != 0:
             self._error_on_incorrect_preamble(msg)
             return
-        self._proto.read_message(msg[1:])
+        try:
+            self._proto.read_message(msg[1:])
+        except InvalidTag:
+            # mapped to InvalidEncryptionKeyAPIError by _handle_error
+            raise
+        except Exception as err:  # pylint: disable=broad-except
+            # A malformed handshake message (ie. too short to hold the
+            # ephemeral key) must fail the handshake, not escape as a raw
+            # exception of the noise library
+            self._handle_error_and_close(
+                HandshakeAPIError(f"{self._log_name}: Handshake failure: {err}")
+            )
+            return
         self._state = NOISE_STATE_READY
         noise_protocol = self._proto.noise_protocol
         self._decrypt_cipher = DecryptCipher(noise_protocol.cipher_state_decrypt)  # pylint: disable=no-member
